@@ -285,7 +285,25 @@ fn gen_case(rng: &mut Prng, flags: Option<usize>) -> Value {
         _ => json!(hex(b"example.org")),
     };
     let headers: Vec<Value> = (0..rng.below(3)).map(|_| json!([hex(rng.pick(&["X-A", "x-b", "Accept"]).as_bytes()), hex(rng.pick(&["Va", "vb", "TEXT/html", ""]).as_bytes())])).collect();
-    json!({"u": hex(u.as_bytes()), "u2": hex(u2.as_bytes()), "kind": kind, "cfg": cfg, "target": hex(target.as_bytes()), "host": host, "headers": headers})
+    // a second configuration for the rebuild: the same | marketing parameters KEPT | one flag flipped | unrelated
+    let cfg2 = match rng.below(6) {
+        0 => Value::Null,
+        1 => cfg.clone(),
+        2 => {
+            let mut c2 = cfg.clone();
+            c2["im"] = json!(false);
+            c2
+        }
+        3 | 4 => {
+            let mut c2 = cfg.clone();
+            let k = *rng.pick(&["ic", "im", "pm", "ihc", "ihd", "amh"]);
+            let cur = c2[k].as_bool().unwrap_or(false);
+            c2[k] = json!(!cur);
+            c2
+        }
+        _ => gen_cfg(rng, None),
+    };
+    json!({"u": hex(u.as_bytes()), "u2": hex(u2.as_bytes()), "kind": kind, "cfg": cfg, "cfg2": cfg2, "target": hex(target.as_bytes()), "host": host, "headers": headers})
 }
 
 /// Diff-directed search: cases built from the numbers and strings of the changed source lines (`VERIF_HINTS`).
@@ -490,6 +508,28 @@ fn gen(args: &Args, emit: &mut dyn FnMut(Value)) {
             let cfg = json!({"ic": false, "im": true, "pm": true, "ihc": f & 1 != 0, "ihd": false, "amh": f & 2 != 0, "mk": mkd});
             for (rh, qh) in [("Example.org", "example.ORG"), ("example.org", "example.org"), ("example.org", "example.org."), ("example.org", "example.org:80"), ("EXAMPLE.ORG", "example.org")] {
                 emit(json!({"u": hex(b"/P?b=1"), "u2": hex(b"/P?b=1"), "kind": "ascii-host", "cfg": cfg, "target": hex(b"/t"), "host": hex(qh.as_bytes()), "headers": [], "rhost": rh}));
+            }
+        }
+    }
+    // boundary family (7): rebuild of requests restored WITHOUT path_and_query_v2, whose URL was changed by the first
+    // normalisation (marketing parameters stripped, parameters sorted, escapes rewritten, lower-cased), under every pair
+    // of (ic, im, pm) combinations: same configuration, marketing kept, each flag flipped
+    {
+        let urls = [
+            ("/a?b=1", "/a?utm_source=x&b=1"),
+            ("/a?b=1&a=2", "/a?b=1&a=2&utm_medium=m%20x&utm_source=s"),
+            ("/A?B=1", "/A?B=1&utm_source=X"),
+            ("/a", "/a?utm_source=x"),
+            ("/a b?q=%41", "/a b?q=%41&z=+&utm_term=t+t"),
+            ("/p?y=2&x=1", "/p?y=2&x=1"),
+        ];
+        for (u, u2) in urls {
+            for f in 0..8usize {
+                for g in 0..8usize {
+                    let cfg = json!({"ic": f & 1 != 0, "im": f & 2 != 0, "pm": f & 4 != 0, "ihc": false, "ihd": false, "amh": true, "mk": mkd});
+                    let cfg2 = json!({"ic": g & 1 != 0, "im": g & 2 != 0, "pm": g & 4 != 0, "ihc": true, "ihd": true, "amh": true, "mk": mkd});
+                    emit(json!({"u": hex(u.as_bytes()), "u2": hex(u2.as_bytes()), "kind": "rebuild", "cfg": cfg, "cfg2": cfg2, "target": hex(b"/t?q=1"), "host": hex(b"Example.ORG"), "headers": [[hex(b"X-A"), hex(b"Va")]]}));
+                }
             }
         }
     }
@@ -725,9 +765,84 @@ fn run(case: &Value) -> Obs {
         "simple": hex(utf8_percent_encode(&u, CONTROLS).to_string().as_bytes()),
     });
 
+    // ---- rebuild of a request restored from JSON WITHOUT `path_and_query_v2` (older shape: the field is None), under the
+    // same configuration and under a second one (`cfg2`; absent = the same): the rebuild must start from
+    // `path_and_query_skipped.original`, so nothing of the first normalisation (stripped marketing parameters, sorting,
+    // lower-casing) leaks into the second
+    let cfg2v = case.get("cfg2").filter(|v| !v.is_null()).unwrap_or(c);
+    let flag2 = |k: &str| cfg2v.get(k).and_then(|b| b.as_bool());
+    let (ic2, im2, pm2, ihc2, ihd2, amh2) = match (flag2("ic"), flag2("im"), flag2("pm"), flag2("ihc"), flag2("ihd"), flag2("amh")) {
+        (Some(a), Some(b), Some(cc), Some(d), Some(e), Some(f)) => (a, b, cc, d, e, f),
+        _ => return Obs::invalid("cfg2 flags"),
+    };
+    let mut mk2: HashSet<String> = HashSet::new();
+    match cfg2v.get("mk").and_then(|m| m.as_array()) {
+        Some(a) => {
+            for h in a {
+                match h.as_str().and_then(unhex).and_then(|b| String::from_utf8(b).ok()) {
+                    Some(st) => {
+                        mk2.insert(st);
+                    }
+                    None => return Obs::invalid("cfg2 mk"),
+                }
+            }
+        }
+        None => return Obs::invalid("cfg2 mk"),
+    }
+    let config2 = RouterConfig {
+        ignore_host_case: ihc2,
+        ignore_header_case: ihd2,
+        ignore_path_and_query_case: ic2,
+        ignore_marketing_query_params: im2,
+        marketing_query_params: mk2.clone(),
+        pass_marketing_query_params_to_target: pm2,
+        always_match_any_host: amh2,
+    };
+    let mut req_a = req2.clone();
+    for (n, v) in &headers {
+        req_a.add_header(n.clone(), v.clone(), false);
+    }
+    let req_nov2: Request = {
+        let mut j = serde_json::to_value(&req_a).unwrap_or(Value::Null);
+        if let Some(o) = j.as_object_mut() {
+            o.remove("path_and_query_v2");
+        }
+        match serde_json::from_value(j) {
+            Ok(r) => r,
+            Err(e) => return Obs::new(json!({"restore": format!("{e}")})).fail("a serialised request without path_and_query_v2 cannot be restored", "rebuild"),
+        }
+    };
+    let req_json = |r: &Request| {
+        let mut j = pqs_json(&r.path_and_query_skipped);
+        j["v2"] = json!(r.path_and_query.as_ref().map(|x| hex(x.as_bytes())));
+        j["host"] = json!(r.host.as_ref().map(|x| hex(x.as_bytes())));
+        j["headers"] = json!(r.headers.iter().map(|h| json!([hex(h.name.as_bytes()), hex(h.value.as_bytes())])).collect::<Vec<_>>());
+        j
+    };
+    let rbn_same = Request::rebuild_with_config(&config, &req_nov2);
+    let rbn_other = Request::rebuild_with_config(&config2, &req_nov2);
+    let rbv_other = Request::rebuild_with_config(&config2, &req_a);
+    // the rule of u under the second configuration, matched against the rebuilt request
+    let rule2: Rule = match serde_json::from_value(json!({"id": "r", "rank": 0, "source": {"path": rpath, "query": rquery, "host": rhost}, "markers": markers_json, "target": target, "status_code": 302})) {
+        Ok(r) => r,
+        Err(e) => return Obs::invalid(&format!("rule json: {e}")),
+    };
+    let mut router2: Router<Rule> = Router::from_config(config2.clone());
+    router2.insert(rule2);
+    let routes_rb = router2.match_request(&rbn_other);
+    let m_rb = !routes_rb.is_empty();
+    let loc_rb = if m_rb {
+        let mut action = Action::from_routes_rule(routes_rb.clone(), &rbn_other, None);
+        let out = action.filter_headers(Vec::new(), 200, false, None);
+        json!(out.iter().find(|h| h.name == "Location").map(|h| hex(h.value.as_bytes())))
+    } else {
+        Value::Null
+    };
+    let rb2_json = json!({"same": req_json(&rbn_same), "other": req_json(&rbn_other), "other_v2": req_json(&rbv_other), "m": m_rb, "loc": loc_rb});
+
     let obs = json!({
         "r1": pqs_json(&req1.path_and_query_skipped), "r2": pqs_json(&req2.path_and_query_skipped),
-        "rule": rule_static, "m11": m11, "m12": m12, "loc": loc, "tgt": tgt, "wf": wf, "rb": rb_json, "ext": ext,
+        "rule": rule_static, "m11": m11, "m12": m12, "loc": loc, "tgt": tgt, "wf": wf, "rb": rb_json, "rb2": rb2_json, "ext": ext,
     });
     let kind = s(case, "kind").unwrap_or_else(|| "?".to_string());
     let mut o = Obs::new(obs).tag(format!("kind:{kind}")).tag(format!("flags:{}{}{}", ic as u8, im as u8, pm as u8));
@@ -735,6 +850,11 @@ fn run(case: &Value) -> Obs {
     let keys1: Vec<&String> = params1.iter().map(|kv| &kv.0).collect();
     let has_dup = { let mut k = keys1.clone(); k.sort(); k.windows(2).any(|w| w[0] == w[1]) };
     if has_dup { o = o.tag("dup-key"); }
+    if case.get("cfg2").map(|v| !v.is_null()).unwrap_or(false) {
+        o = o.tag(if cfg2v == c { "cfg2:same" } else if im && !im2 { "cfg2:keeps-marketing" } else { "cfg2:other" });
+    }
+    if req2.path_and_query_skipped.skipped_query_params.is_some() { o = o.tag("rebuild:had-skipped"); }
+    if req2.path_and_query_skipped.path_and_query != u2 { o = o.tag("rebuild:normalised-differs"); }
     if !markers_json.is_empty() { o = o.tag(format!("declared-markers:{}", markers_json.len())); }
     if rhost.is_some() { o = o.tag("rule-host"); }
     if impl_only { o = o.tag("impl-only"); }
@@ -788,6 +908,29 @@ fn run(case: &Value) -> Obs {
     }
     if ser(&Request::rebuild_with_config(&config, &req1)) != ser(&req1) {
         return o.fail("rebuilding a request made by from_config changes it", "rebuild");
+    }
+    // … also when the request was restored without `path_and_query_v2`: the rebuild starts from `original`, so it equals the
+    // rebuild of the request that still has the field, under the same and under another configuration, and its URL part is
+    // what from_config gives for the original URL under that configuration
+    if ser(&rbn_same) != ser(&Request::rebuild_with_config(&config, &req_a)) || ser(&rbn_other) != ser(&rbv_other) {
+        return o.fail("rebuilding a request restored without path_and_query_v2 differs from rebuilding the request that has it (the rebuild must start from the original URL)", "rebuild-original");
+    }
+    {
+        let fresh = PathAndQueryWithSkipped::from_config(&config2, &u2);
+        if pqs_json(&rbn_other.path_and_query_skipped) != pqs_json(&fresh) {
+            return o.fail("rebuild under another configuration is not the normalisation of the original URL under that configuration", "rebuild-original");
+        }
+        if m_rb && !impl_only {
+            let expect = match (&fresh.skipped_query_params, target.is_empty()) {
+                (_, true) => None,
+                (None, false) => Some(target.clone()),
+                (Some(sk), false) => Some(format!("{}{}{}", target, if target.contains('?') { "&" } else { "?" }, sk)),
+            };
+            let got = o.obs["rb2"]["loc"].as_str().and_then(unhex).and_then(|b| String::from_utf8(b).ok());
+            if got != expect {
+                return o.fail("after a rebuild the Location does not carry exactly the skipped parameters of the original URL", "marketing-forward");
+            }
+        }
     }
     for ((_, v), h) in headers.iter().zip(rb1.headers.iter()) {
         let want = if ihd { v.to_lowercase() } else { v.clone() };
